@@ -18,7 +18,8 @@ SHARDS = {"quick": 8, "thorough": 16}
 RULE = ("pairs of Section trees derived from one 3-level template with controlled overlap; one conflict / "
         "near-conflict (case or whitespace only) / unset attribute planted at every (depth, sibling position, "
         "attribute) of the template x strict on/off (complete for the template), same-name-other-type "
-        "sub-Sections, convertible and unconvertible values, then seeded random pairs; non-trivial = the trees "
+        "sub-Sections, types differing in letter case only, convertible and unconvertible values, "
+        "an earlier successful merge into any Section of src or dest (dest having or lacking that branch), then seeded random pairs; non-trivial = the trees "
         "share at least one child name; distinct = hash of (dest spec, src spec, strict) without ids")
 ASSUMPTIONS = ["text attributes differing only in case/whitespace: don't-care in strict mode",
                "de-duplication of values that occur twice in the source: don't-care",
